@@ -628,9 +628,9 @@ fn main() {
     exhaustive_ternary::<Wrapping<i8>>(&cfg, &mut rep);
     exhaustive_ternary::<Wrapping<u8>>(&cfg, &mut rep);
 
-    let nw = cfg.n(20_000, 2_000_000);
+    let nw = cfg.n(20_000, 8_000_000);
     {
-        let proto = Sub::new("wide_ints", "stratified boundary sweep of (value, lower, upper) for i16 i32 i64 isize u16 u32 u64 usize: each drawn from {MIN, MIN+1, MAX, MAX-1, 0, +-1, MAX/2, MAX/2+1, MIN/2, random magnitude}; clamped / is_between / wrapped_between / wrapped / pingpong against an i128 model incl. required panics; non-trivial = ordered bounds; distinct by hash of the triple").with_floor(nw / 8);
+        let proto = Sub::new("wide_ints", "stratified boundary sweep of (value, lower, upper) for i16 i32 i64 isize u16 u32 u64 usize: each drawn from {MIN, MIN+1, MAX, MAX-1, 0, +-1, MAX/2, MAX/2+1, MIN/2, random magnitude}; clamped / is_between / wrapped_between / wrapped / pingpong against an i128 model incl. required panics; non-trivial = ordered bounds; distinct by hash of the triple").with_floor((nw / 8).min(100_000));
         let s = run_cases(&cfg, proto, nw, |s, i| match i % 8 {
             0 => wide_int_sweep!(s, &cfg, i, i16, "i16"),
             1 => wide_int_sweep!(s, &cfg, i, i32, "i32"),
@@ -643,7 +643,7 @@ fn main() {
         });
         rep.push(s);
     }
-    let nf = cfg.n(40_000, 4_000_000);
+    let nf = cfg.n(40_000, 8_000_000);
     {
         let proto = Sub::new("floats", "f32 and f64: value from {+-0, tiny negatives, half-integers, exact multiples, magnitudes 1e-30..1e30, uniform}, upper from {1, 3, 360, 2pi, 10^-6..10^6, uniform}: wrapped in [0,upper] and congruent within 8 ulp of max(|x|,upper); pingpong in range and on the triangle wave; wrapped_between; documented panics (non-positive/inverted/NaN bounds) required; clamp family, partial_min/max, delta_angle(_degrees) in (-pi,pi] / (-180,180] and congruent; non-trivial = x != 0").with_floor(nf / 4);
         let s = run_cases(&cfg, proto, nf, |s, i| {
@@ -655,7 +655,7 @@ fn main() {
         });
         rep.push(s);
     }
-    let nl = cfg.n(1_000, 100_000);
+    let nl = cfg.n(1_000, 200_000);
     {
         let proto = Sub::new("vector_lifts", "Clamp/IsBetween/Wrap lifted to all 13 vector kinds (i32 lanes), per-lane bounds and broadcast scalar bounds: every lane equals the scalar call, and the vector form panics iff some lane's scalar call panics (about 1 in 12 lanes gets inverted bounds); distinct by hash of all lanes").with_floor(nl);
         let s = run_cases(&cfg, proto, nl, |s, i| {
